@@ -1,7 +1,7 @@
 SPECIFICATION Spec
 CONSTANTS
   Workers = {w1, w2}
-  NTasks = 3
+  NTasks = 2
   PolysPerTask = 2
   MaxRaw = 2
   Need = 3
